@@ -306,16 +306,19 @@ Definition cache_uses : list N := [1; 2; 3].
 Definition key_fields : list N := [0; 1].
 Definition ident_parts : list (N + list N) := [inl 0; inr [0]; inl 1].
 Definition evict_oldest : bool := true.
+(* step_init: the call token carries exactly the call state the cache is warmed with (none iff None) *)
+Definition mint_none_guard : bool := true.
 
 (* ---- stand-ins for the service of harness/c14_service.py (correspondence only) ------------------------------ *)
-(* methods: 0 ex (call state ExCall), 1 ey (no call state), 2 ez (call state ExCall); call-state type 1 = ExCall *)
-Definition declares_h (m ty : N) : bool := (ty =? 1) && ((m =? 0) || (m =? 2)).
+(* methods: 0 ex (call state ExCall), 1 ey (no call state), 2 ez (call state ExCall), 3 ew (call state WCall, an
+   object that is falsy but not None); call-state types: 1 = ExCall, 2 = WCall *)
+Definition declares_h (m ty : N) : bool := ((ty =? 1) && ((m =? 0) || (m =? 2))) || ((ty =? 2) && (m =? 3)).
 (* arg = 1000 * label + start;  start 999 makes the init method raise *)
 Definition init_h (m arg : N) : option (N * N * N) :=
   let label := arg / 1000 in
   let start := arg mod 1000 in
   if start =? 999 then None
-  else if m =? 1 then Some (0, 0, start) else Some (1, label, start).
+  else if m =? 1 then Some (0, 0, start) else if m =? 3 then Some (2, label, start) else Some (1, label, start).
 (* body 0 = cancel; otherwise x = body: the state counts turns, the output names counter, input and call label *)
 Definition turn_h (m ty payload st body : N) : N * option N :=
   if body =? 0 then (0, None)
